@@ -67,6 +67,7 @@ def replay(r):
 
 
 def worker(cfg):
+    dl.FLOAT[0] = cfg.get("dtype", "float32")          # dtype tag of model parameters and inputs (float64: narrowing casts inside the code show)
     ld, shims = C.fresh_env()
     dls = ld.load("deep_lift_shap")
     dl.install_deferred_any(shims, None)
@@ -156,7 +157,8 @@ def configs(tier):
     cf = [dict(arch="dense1", A=2, L=3, B=1, ns=1, target=1), dict(arch="dense1", A=2, L=2, B=2, ns=2, target=0, batch_size=3),
           dict(arch="conv", A=2, L=2, B=1, ns=2, target=1), dict(arch="affine", A=2, L=3, B=1, ns=2, target=0, symw=True),
           dict(arch="dense1", A=2, L=2, B=1, ns=2, target=1, n_shuffles_arg=1),
-          dict(arch="dense1", A=2, L=2, B=1, ns=1, target=0, history_ops=True)]
+          dict(arch="dense1", A=2, L=2, B=1, ns=1, target=0, history_ops=True),
+          dict(arch="dense1", A=2, L=2, B=1, ns=1, target=1, dtype="float64"), dict(arch="conv", A=2, L=2, B=1, ns=1, target=0, dtype="float64")]
     # depth 2-3: every (example, reference) pair of sequences is enumerated, the activations stay uninterpreted
     import itertools as _it
     def deep(arch, A, L, every):
